@@ -215,6 +215,7 @@ class GoVerifier(GoExec, SpecMixin, CallsMixin, StmtsMixin, LibMixin):
         is available as hypothesis (well-founded: the length decreases and is >= 0)."""
         lem = self.spec.lemmas[name]
         reset_fresh()
+        self.interpret_prod = bool(lem.get('interpret'))
         fr = Frame('lemma ' + name, None, lem)
         self.frame = fr
         st = State()
@@ -239,6 +240,7 @@ class GoVerifier(GoExec, SpecMixin, CallsMixin, StmtsMixin, LibMixin):
             self.run_hint(st, env, h.text, h)
         for i, e in enumerate(lem.get('ensures')):
             self.oblige(st, 'lemma-post#%d' % (i + 1), self.sev_bool(env, e.expr), src=e.line)
+        self.interpret_prod = False
         return fr
 
     def read_var(self, st, oid):
